@@ -595,44 +595,28 @@ def _starts_with_glyph(ctx, fn: FuncInfo, v: ast.AST) -> Tuple[Optional[bool], s
 
 
 def _split_rule(ctx, app: FuncInfo):
+    """Every physical line is its own entry: what append() writes into the line buffer is, judged by the domain of C17
+    (rules.c17.Clean), a list of line-break free strings - str.splitlines() of each flattened item, the guarded empty
+    string, or the lines of another block - however the loop / comprehension is written."""
+    from .c17 import Clean
+    from ..mutation import Mutations as _M
     run = ctx.run
     mod = app.module.name
-    loops = [n for n in iter_own_nodes(app.node) if isinstance(n, ast.For) and isinstance(n.iter, ast.Call)
-             and _callee_name(n.iter) == 'flatten_to_strlist']
-    if len(loops) != 1:
-        run.error('C19.every-line', mod, app.qualname, 'line splitting loop', f'{len(loops)} loops over flatten_to_strlist found (1 expected)')
-        return
-    lp = loops[0]
-    v = lp.target.id if isinstance(lp.target, ast.Name) else None
-    uses = []
-    for n in ast.walk(lp):
-        if isinstance(n, ast.Call) and isinstance(n.func, ast.Attribute) and n.func.attr in ('append', 'extend') and n.args:
-            uses.append(n)
-    problems = []
-    n_split = 0
-    for u in uses:
-        a = u.args[0]
-        mentions = any(isinstance(x, ast.Name) and x.id == v for x in ast.walk(a))
-        if not mentions:
-            continue
-        if isinstance(a, ast.Call) and isinstance(a.func, ast.Attribute) and a.func.attr == 'splitlines' and \
-                isinstance(a.func.value, ast.Name) and a.func.value.id == v and u.func.attr == 'extend':
-            kw = {k.arg: k.value for k in a.keywords}
-            keep = a.args[0] if a.args else kw.get('keepends')
-            if keep is not None and not (isinstance(keep, ast.Constant) and not keep.value):
-                problems.append('splitlines(keepends=True): line breaks stay inside the entries')
-            n_split += 1
-            continue
-        if isinstance(a, ast.Name) and a.id == v and u.func.attr == 'append':
-            # allowed only where the item is known to be empty
-            f = [(ast.unparse(c), p) for c, p in atomic_facts(ctx.flow.path_conditions(u))]
-            empty = any((t in (f'len({v}) > 0', v, f'{v} != \'\'') and not p) or (t in (f'not {v}', f'len({v}) == 0', f'{v} == \'\'') and p) for t, p in f)
-            if not empty:
-                problems.append(f'`{ast.unparse(u)[:50]}` stores a string item unsplit: embedded line breaks survive into one entry')
-            continue
-        problems.append(f'`{ast.unparse(u)[:60]}` stores the item in a form other than str.splitlines()')
-    if n_split == 0:
-        problems.append('string items are not split with str.splitlines()')
-    run.add('C19.every-line', mod, app.qualname, lp.iter, not problems,
-            'every string item is split on all line boundaries; each physical line is its own entry' if not problems else
-            '; '.join(problems), node=lp)
+    mut = _M(ctx.prog, ctx.cg)
+    mut.solve()
+    cl = Clean(ctx, mut)
+    n = 0
+    for u in iter_own_nodes(app.node):
+        if isinstance(u, ast.Call) and isinstance(u.func, ast.Attribute) and u.func.attr in ('extend', 'append', 'insert') and \
+                ast.unparse(u.func.value) in ('self.lines', 'self._lines') and u.args:
+            n += 1
+            ok, why = cl.clean_list(app, u.args[0]) if u.func.attr == 'extend' else cl.clean_str(app, u.args[-1], at=u)
+            if ok is None:
+                run.error('C19.every-line', mod, app.qualname, u, f'cannot classify what is written into the line buffer: {why}', node=u)
+            else:
+                run.add('C19.every-line', mod, app.qualname, u, ok,
+                        f'each physical line is its own entry ({why})' if ok else
+                        f'embedded line breaks survive into one entry: {why}', node=u)
+    if n == 0:
+        run.error('C19.every-line', mod, app.qualname, 'line buffer writes', 'append() does not write the line buffer')
+
